@@ -15,6 +15,9 @@ import GdcVerif.Lemmas.T1Model
 import GdcVerif.Lemmas.T1Lock
 import GdcVerif.Lemmas.T1LockStyles
 import GdcVerif.Lemmas.T1Termall
+import GdcVerif.Lemmas.T1LayeredLock
+import GdcVerif.Lemmas.T1Side
+import GdcVerif.Lemmas.T1Trunc
 /-!
   C20 — JPEG 2000 building blocks are exact inverses: RCT, 5/3 DWT, MQ coder, EBCOT T1.
 
@@ -344,5 +347,92 @@ theorem t1_roundtrip_styles (w h orient style mb : Nat) (coeffs : List Int) (hle
 /-- non-vacuity: style RESET|VSC|SEGSYM -/
 example : Go.and ((42 : Nat) : Int) CblkStyleTermAll = 0 ∧ Go.and ((42 : Nat) : Int) CblkStyleLazy = 0 ∧
     T1.styPterm 42 = false := by decide
+
+/-! ## EBCOT T1: the layered API (`EncodeLayered` / `DecodeLayeredWithMode`, `Model/T1Layered.lean`) -/
+
+/-- **layered T1 round trip, every style without LAZY** (32 of the 64 styles: TERMALL, RESET, VSC, PTERM, SEGSYM in any
+combination): `DecodeLayeredWithMode`, given the bytes and the cumulative pass lengths that `EncodeLayered` reports
+(after `normalizePassRates`), returns the coefficients.  Under TERMALL every pass is its own MQ codeword segment,
+terminated by `FlushToOutput` or (PTERM) `ErtermEnc`: the bytes in front of a segment are never touched again
+(`Mqc.InSeg`), the decoder of a segment is in lock-step with the restarted encoder (`Mqc.decInit_rel`,
+`Mqc.decode_shift`), contexts are carried or reset on both sides, empty segments are allowed.  Without PTERM the
+stream is never empty; under PTERM the theorem does not exclude an empty stream, which the decoder rejects
+(`empty code-block data`) — `ErtermEnc` can end without a byte (witness at the MQ level in the registry notes) -/
+theorem t1_layered_roundtrip_mq (w h orient style mb : Nat) (coeffs : List Int) (hlen : coeffs.length = w * h)
+    (hbnd : ∀ c ∈ coeffs, -2147483648 < c ∧ c < 2147483648)
+    (hmb : T1.findMaxBitplane (T1.padBlock w h coeffs) = some mb) (hs : style ∈ T1.stylesMq) :
+    ∃ rates bytes, T1.encodeLayered w h orient style coeffs (3 * (mb + 1) - 2) = .ok (rates, (mb : Int), bytes) ∧
+      (T1.styPterm style = false → bytes ≠ []) ∧
+      (bytes ≠ [] → T1.decodeLayered w h orient style (mb : Int) rates bytes = .ok coeffs) := by
+  rw [show 3 * (mb + 1) - 2 = 3 * mb + 1 by omega]
+  exact T1.t1_layered_roundtrip_mq w h orient style mb coeffs hlen (fun c hc => by have := hbnd c hc; omega) hmb hs
+
+/-- non-vacuity: TERMALL|RESET|PTERM|SEGSYM is one of the styles -/
+example : 54 ∈ T1.stylesMq := by decide
+
+/-- **`Encode` / `DecodeWithBitplane` round trip with PTERM** (styles without LAZY and TERMALL; extends
+`t1_roundtrip_styles` by `ErtermEnc` as the final termination, with the same caveat about an empty stream) -/
+theorem t1_roundtrip_pterm (w h orient style mb : Nat) (coeffs : List Int) (hlen : coeffs.length = w * h)
+    (hbnd : ∀ c ∈ coeffs, -2147483648 < c ∧ c < 2147483648)
+    (hmb : T1.findMaxBitplane (T1.padBlock w h coeffs) = some mb)
+    (hT : Go.and (style : Int) CblkStyleTermAll = 0) (hL : Go.and (style : Int) CblkStyleLazy = 0) :
+    ∃ bytes, T1.encodeBlock w h orient style coeffs (3 * (mb + 1) - 2) = .ok bytes ∧
+      (T1.styPterm style = false → bytes ≠ []) ∧
+      (bytes ≠ [] → T1.decodeBlock w h orient style (3 * (mb + 1) - 2) mb bytes = .ok coeffs) := by
+  rw [show 3 * (mb + 1) - 2 = 3 * mb + 1 by omega]
+  exact T1.t1_roundtrip_plainP w h orient style mb coeffs hlen (fun c hc => by have := hbnd c hc; omega) hmb hT hL
+
+/-- non-vacuity: RESET|PTERM|SEGSYM -/
+example : Go.and ((50 : Nat) : Int) CblkStyleTermAll = 0 ∧ Go.and ((50 : Nat) : Int) CblkStyleLazy = 0 := by decide
+
+/-- **the block encoder never panics, all 32 styles without LAZY** (TERMALL and PTERM combined included), for
+coefficients in the `int32` range `(-2^31, 2^31)`: `ErtermEnc` leaves a `TermOk` state as well (`T1.term_facts`) -/
+theorem t1_encode_no_panic_mq (w h orient style : Nat) (coeffs : List Int) (numPasses : Nat)
+    (hlen : coeffs.length = w * h) (hbnd : ∀ c ∈ coeffs, -2147483648 < c ∧ c < 2147483648)
+    (hL : Go.and (style : Int) CblkStyleLazy = 0) :
+    ∃ bytes, T1.encodeBlock w h orient style coeffs numPasses = .ok bytes :=
+  T1.encodeBlock_no_panic_mq w h (T1.padBlock w h coeffs)
+    (T1.padBlock_bound w h coeffs (fun c hc => by have := hbnd c hc; omega)) orient style coeffs numPasses hlen rfl hL
+
+/-- non-vacuity: TERMALL|PTERM -/
+example : Go.and ((20 : Nat) : Int) CblkStyleLazy = 0 := by decide
+
+/-- side case, truncated pass count (styles without LAZY and TERMALL, `1 ≤ np < 3(mb+1)-2`): decoding the stream
+with the same pass count returns every coefficient truncated below a plane `lev x y` (`T1.tr p v` keeps the sign
+and clears the magnitude bits below `p`), which is the plane of the last coded pass or the one above it — exactly
+the plane of the last pass when that pass is a cleanup pass -/
+theorem t1_truncated (w h orient style mb np : Nat) (coeffs : List Int) (hlen : coeffs.length = w * h)
+    (hbnd : ∀ c ∈ coeffs, -2147483648 < c ∧ c < 2147483648)
+    (hmb : T1.findMaxBitplane (T1.padBlock w h coeffs) = some mb)
+    (hT : Go.and (style : Int) CblkStyleTermAll = 0) (hL : Go.and (style : Int) CblkStyleLazy = 0)
+    (h1 : 1 ≤ np) (h2 : np < 3 * (mb + 1) - 2) :
+    ∃ (bytes : List Nat) (lev : Nat → Nat → Nat), T1.encodeBlock w h orient style coeffs np = .ok bytes ∧
+      T1.decodeBlock w h orient style np (mb : Int) bytes =
+        .ok ((List.range h).flatMap fun y => (List.range w).map fun x =>
+          T1.tr (lev x y) (coeffs.getD (y * w + x) 0)) ∧
+      ∀ x y, x < w → y < h → (lev x y = mb - (np + 1) / 3 ∨ lev x y = mb - (np + 1) / 3 + 1) ∧
+        (np % 3 = 1 → lev x y = mb - (np + 1) / 3) :=
+  T1.t1_truncated w h orient style mb np coeffs hlen (fun c hc => by have := hbnd c hc; omega) hmb hT hL h1 (by omega)
+
+/-- non-vacuity: a block with top plane 3 and 5 of its 10 passes; truncation below plane 2 of -13 and 11 -/
+example : T1.findMaxBitplane (T1.padBlock 2 1 [-13, 11]) = some 3 ∧ 5 < 3 * (3 + 1) - 2 ∧
+    T1.tr 2 (-13) = -12 ∧ T1.tr 2 11 = 8 := by decide
+
+/-- side case, all-zero block: `Encode` emits the flush of a fresh coder (no pass), `EncodeLayered` no pass and no
+byte; decoding with zero passes returns the zero block -/
+theorem t1_zero_block (w h orient style : Nat) (coeffs : List Int) (np : Nat) (hlen : coeffs.length = w * h)
+    (hz : T1.findMaxBitplane (T1.padBlock w h coeffs) = none) :
+    coeffs = List.replicate (w * h) 0 ∧
+    (∃ bytes, T1.encodeBlock w h orient style coeffs np = .ok bytes ∧ bytes ≠ [] ∧
+      ∀ mb : Int, T1.decodeBlock w h orient style 0 mb bytes = .ok coeffs) ∧
+    T1.encodeLayered w h orient style coeffs np = .ok ([], -1, []) := by
+  have hc := T1.zero_of_nomax w h coeffs hlen hz
+  obtain ⟨bytes, he, hne⟩ := T1.encodeBlock_zero w h orient style coeffs np hlen hz
+  refine ⟨hc, ⟨bytes, he, hne, fun mb => ?_⟩, T1.encodeLayered_zero w h orient style coeffs np hlen hz⟩
+  rw [T1.decodeBlock_nopass w h orient style mb bytes (by intro h0; exact hne (List.length_eq_zero_iff.mp h0))]
+  rw [← hc]
+
+/-- non-vacuity -/
+example : T1.findMaxBitplane (T1.padBlock 2 2 [0, 0, 0, 0]) = none := by decide
 
 end C20
